@@ -6,7 +6,7 @@ from lib import Result, RMODES, OMODES, e_fmt, e_list, e_dy, model_call, run_sha
 
 ROUTES = ['resize', 'resize_dtype', 'like_kw', 'like_method', 'ctor', 'set_val', 'call', 'equal', 'setitem']
 SRC_BUILDS = ['raw', 'float', 'int', 'indexed']
-RULE = ('source/destination format pairs of the core domain (exhaustive source codes for n_word<=3 quick / <=6 thorough, random and boundary codes up to 52 bits), all 10 destination mode pairs, '
+RULE = ('source/destination format pairs of the core domain (exhaustive source codes for n_word<=3 quick / <=6 thorough, random and boundary codes up to 52 bits, and codes whose rescaled value sits at the 2^62..2^65 machine boundary), all 10 destination mode pairs, '
         '9 conversion routes (resize by sizes, resize by dtype string, like=, like(), constructor, set_val, call, equal, indexed assignment of Fxp elements), scalar / 1-D / 2-D sources built from raw codes, '
         'floats, Python ints and indexed elements (hidden vdtype / storage dtype vary), chains of up to 6 conversions. Compared: destination codes with Spec.quantize of the exact source value, shape, dtype string, '
         'overflow/underflow flags, source unchanged; and with the conversion model. Non-trivial = the conversion changes the value (rounding or overflow); distinct by full input.')
@@ -85,6 +85,15 @@ def gen_case(rng, tier, small=None):
         dnf = nf + rng.choice([-4, -2, -1, 0, 1, 2, 5])
     dnf = max(-8, min(dnw + 8, dnf))
     ds = rng.random() < 0.6
+    if small is None and rng.random() < 0.12:
+        # a source code whose rescaled value (code << shift) sits at the 63/64-bit machine boundary (it overflows the destination)
+        nw = rng.randint(12, 52); nf = rng.randint(0, 8); s = rng.random() < 0.4
+        lo, hi = S.fmt_bounds(s, nw)
+        top = hi.bit_length()
+        codes = [rng.choice([hi, hi - 1, (1 << (top - 1)) + rng.randint(0, (1 << (top - 1)) - 1), (1 << (top - 1)), lo, rng.randint(lo, hi)]) for _ in codes]
+        bl = max(abs(c).bit_length() for c in codes)
+        dnf = nf + rng.choice([63, 64, 64, 65, 62]) - bl
+        dnw = rng.choice([52, 48, max(1, dnf - 8), max(1, dnf - 4), max(1, dnf)]); dnw = max(1, min(52, dnw)); dnf = max(-8, min(dnw + 8, dnf))
     lsb = Fraction(2) ** (-nf)
     builds = ['raw', 'float', 'indexed'] + (['int'] if all((c * lsb).denominator == 1 for c in codes) else [])
     return {'s': s, 'nw': nw, 'nf': nf, 'codes': codes, 'shape': list(shape), 'build': rng.choice(builds),
